@@ -9,7 +9,7 @@ A case is a JSON dict::
 ``L``/``M`` submit a limit / market order (``Market._add_order`` -- the call the runner makes), ``C`` cancels the k-th
 (mod n) order accepted so far whatever its state, ``T`` advances the clock (``Market._update_time``), ``R`` switches
 running on/off (what sessions and the halt rule do), ``X`` is a matching round (``Market._execution``) when running,
-``RS`` re-submits an already accepted order object and ``FM`` submits an order naming another market (both must be
+``CB`` cancels the current best order of a side, ``RS`` re-submits an already accepted order object and ``FM`` submits an order naming another market (both must be
 refused), ``D`` (drain probe) deep-copies the market, sweeps a fraction of one side with one aggressive order and applies
 the round oracles to that sweep without touching the history (also done for both sides at the end of every history).  In continuous mode a round is attempted after every submit / cancel while running.
 """
@@ -533,6 +533,12 @@ class MarketRun:
             elif k == "X":
                 if self.M.running:
                     self.round(continuous=False, incoming=None)
+            elif k == "CB":
+                # cancel the current best order of one side (found through the model's ranking)
+                best = self.M.best(op[1])
+                if best is not None:
+                    idx = next(i for i, (_, mo) in enumerate(self.live) if mo is best)
+                    self.op_cancel(idx)
             elif k == "D":
                 self.op_drain(op[1], op[2])
             elif k == "RS":
@@ -609,6 +615,8 @@ def market_cases(draw, max_ops: int = 60, market_frac: int = 2, illegal: bool = 
     match = st.just(("X",))
     alts = [limit] * 8 + [market] * market_frac + [cancel] * (6 if deep else 3) + [tick_op] * (1 if deep else 3) + [match] * match_weight
     alts += [st.tuples(st.just("D"), st.booleans(), st.sampled_from([0.3, 0.5, 0.8, 1.0]))]
+    if deep:
+        alts += [st.tuples(st.just("CB"), st.booleans())] * 4
     if toggles:
         alts += [run_op]
     if illegal:
